@@ -259,3 +259,51 @@ def rule_holesib(ctx, prop: str) -> RuleResult:
             )
     res.floor = 2
     return res
+
+
+def rule_condspec(ctx, prop: str) -> RuleResult:
+    """Accepting conditions must imply their specification (propositional check over the
+    syntactic atoms of the condition, by truth table — no solver):
+      * unification of two index comparisons may ignore the operator only when both are
+        the same operator or both are inequalities (an `==` never unifies with `<`);
+      * divide_with_recompute may use the closed form  E - E % s  for  (E / c) * s  only
+        when c == s."""
+    from ..boolform import atoms, implies, parse, to_form
+
+    ix, adts = ctx.ix, ctx.adts
+    res = RuleResult("CONDSPEC")
+    specs = []
+    if prop in ("C05",):
+        specs.append((U, "Unification.unify_e", "inequality_ops",
+                      "{P}.op == {B}.op or ({P}.op in inequality_ops and {B}.op in inequality_ops)",
+                      "two comparisons are unified up to their operator although one is `==` and the other an inequality: `if i == m` becomes an instance of a callee guarded by `if i < bound`"))
+    if prop in ("C01", "C04"):
+        specs.append(("src/exo/rewrite/LoopIR_scheduling.py", "DoDivideWithRecompute", "outer_hi.op",
+                      "isinstance(outer_hi, LoopIR.BinOp) and outer_hi.op == '/' and isinstance(outer_hi.rhs, LoopIR.Const) and outer_hi.rhs.val == outer_stride",
+                      "the closed form `E - E % stride` is used for outer_hi = E / c without requiring c == stride: the legality check `outer_hi * stride <= hi` is then made on the wrong quantity and the rewritten loop runs past the buffer"))
+    for file, qn, marker, spec_src, why in specs:
+        f = ix.func(file, qn)
+        res.analysed.append(f"{file}:{qn}")
+        ps = f.params()
+        cands = [n for n in f.body_nodes() if isinstance(n, ast.If) and marker in ast.unparse(n.test)]
+        if not cands:
+            raise AnalysisError(f"anchor vanished: condition mentioning `{marker}` in {qn}")
+        for n in cands:
+            res.instances += 1
+            res.nontrivial += 1
+            spec = spec_src
+            if "{P}" in spec:
+                spec = spec.replace("{P}", ps[1]).replace("{B}", ps[2])
+            test = to_form(n.test)
+            sp = parse(spec)
+            # the specification must be expressible over the test's atoms (else the
+            # shape changed and the rule cannot decide)
+            unknown = atoms(sp) - atoms(test)
+            ok, cex = implies(test, sp)
+            res.ob(ok)
+            res.sample(f"{qn}: `{ast.unparse(n.test)[:100]}` implies the specified condition: {ok}")
+            if not ok:
+                shown = ", ".join(f"{k}={v}" for k, v in sorted(cex.items()) if k in atoms(sp))
+                res.add(Finding("CONDSPEC", file, n.lineno, qn, marker, f"{why} (accepted although: {shown})"))
+    res.floor = len(specs)
+    return res
